@@ -149,7 +149,7 @@ def run_pair_bundle(name, tier, seed, specs=ALL_SPECS):
            "metas": {name + "_suite": meta}, "info": [info_a, info_b], "viol": viol, "div": div,
            "events": va[specs[0]]["events"] + vb[specs[0]]["events"],
            "seen": va["TraceProps"]["seen"], "matched": {"TraceTwin": tw["matched"],
-                                                         **{s: [x + y for x, y in zip(va[s]["matched"], vb[s]["matched"])] for s in specs}},
+                                                         **{s: merge_matched(va[s]["matched"], vb[s]["matched"]) for s in specs}},
            "runs": runs, "wall": {"harness": round(t1 - t0, 1), "tlc": round(t2 - t1, 1)}, "cached": False}
     engine.cache_put(key, res)
     return res
@@ -197,6 +197,14 @@ def run_boundary_bundle(tier, seed):
            "runs": runs, "wall": {"harness": round(t1 - t0, 1), "tlc": round(t2 - t1, 1)}, "cached": False}
     engine.cache_put(key, res)
     return res
+
+
+def merge_matched(a, b):
+    if isinstance(a, dict) or isinstance(b, dict):
+        a = a if isinstance(a, dict) else {}
+        b = b if isinstance(b, dict) else {}
+        return {k: a.get(k, 0) + b.get(k, 0) for k in set(a) | set(b)}
+    return [x + y for x, y in zip(a, b)]
 
 
 def get_bundle(name, tier, seed):
